@@ -533,19 +533,36 @@ type field struct {
 	val        uint64
 }
 
+// structural boundaries of an encoding: every offset at which a component starts or ends
+func boundaries(b []byte, fs []field, extra ...int) []int {
+	cuts := []int{0, 1, len(b)}
+	for _, f := range fs {
+		cuts = append(cuts, f.off, f.off+f.width)
+	}
+	return append(cuts, extra...)
+}
+
 func validEncoding(r *prng.R, kind string) ([]byte, []field, string) {
+	b, fs, _, origin := validEncodingCuts(r, kind)
+	return b, fs, origin
+}
+
+func validEncodingCuts(r *prng.R, kind string) ([]byte, []field, []int, string) {
 	switch kind {
 	case "depth":
 		d := node.Depth(r.Intn(65536))
-		return d.MarshalBinary(), []field{{0, 2, uint64(d)}}, "depth"
+		fs := []field{{0, 2, uint64(d)}}
+		return d.MarshalBinary(), fs, boundaries(d.MarshalBinary(), fs), "depth"
 	case "key":
 		k := node.Key(genKeyBytes(r))
 		b, _ := k.MarshalBinary()
-		return b, []field{{0, 2, uint64(len(k))}}, "key"
+		fs := []field{{0, 2, uint64(len(k))}}
+		return b, fs, boundaries(b, fs), "key"
 	case "leaf":
 		l := &node.LeafNode{Key: genKeyBytes(r), Value: genValue(r)}
 		b, _ := l.MarshalBinary()
-		return b, []field{{1, 2, uint64(len(l.Key))}, {3 + len(l.Key), 4, uint64(len(l.Value))}}, "leaf"
+		fs := []field{{1, 2, uint64(len(l.Key))}, {3 + len(l.Key), 4, uint64(len(l.Value))}}
+		return b, fs, boundaries(b, fs), "leaf"
 	case "inode":
 		c := genInodeCase(r)
 		nd := inodeOf(c)
@@ -562,18 +579,23 @@ func validEncoding(r *prng.R, kind string) ([]byte, []field, string) {
 			b, _ = nd.MarshalBinary()
 		}
 		fs := []field{{1, 2, uint64(c.Lbl)}}
+		lo := 3 + len(nd.Label)
+		extra := []int{lo, lo + 1}
 		if c.HasLeaf && origin != "inode-compact-v1" {
-			lo := 3 + len(nd.Label)
 			k := len(nd.LeafNode.Node.(*node.LeafNode).Key)
 			v := len(nd.LeafNode.Node.(*node.LeafNode).Value)
 			fs = append(fs, field{lo + 1, 2, uint64(k)}, field{lo + 3 + k, 4, uint64(v)})
+			extra = append(extra, lo+3+k, lo+7+k+v)
 		}
-		return b, fs, origin
+		if origin == "inode-full" {
+			extra = append(extra, len(b)-64, len(b)-32)
+		}
+		return b, fs, boundaries(b, fs, extra...), origin
 	default: // node
 		if r.Chance(50) {
-			return validEncoding(r, "leaf")
+			return validEncodingCuts(r, "leaf")
 		}
-		return validEncoding(r, "inode")
+		return validEncodingCuts(r, "inode")
 	}
 }
 
@@ -592,20 +614,13 @@ func genDecodeCase(r *prng.R, kind string) Case {
 			name += "+trunc"
 		}
 		return Case{Kind: kind, Data: hex.EncodeToString(m), Origin: fmt.Sprintf("field@%d/%d:%s:%s", f.off, f.width, name, origin)}
-	case x < 70: // truncated tails at every interesting boundary
-		b, fs, origin := validEncoding(r, kind)
+	case x < 70: // truncated tails at every structural boundary, -1 / 0 / +1
+		b, _, cuts, origin := validEncodingCuts(r, kind)
 		cut := r.Intn(len(b) + 1)
-		if r.Chance(60) {
-			f := fs[r.Intn(len(fs))]
-			cut = f.off + []int{0, 1, f.width, f.width + 1, f.width + int(f.val) - 1, f.width + int(f.val)}[r.Intn(6)]
+		if r.Chance(80) {
+			cut = cuts[r.Intn(len(cuts))] + r.Intn(3) - 1
 			if cut < 0 || cut > len(b) {
 				cut = len(b) / 2
-			}
-		}
-		if r.Chance(30) && len(b) >= 64 {
-			cut = len(b) - []int{1, 31, 32, 33, 63, 64, 65}[r.Intn(7)]
-			if cut < 0 {
-				cut = 0
 			}
 		}
 		return Case{Kind: kind, Data: hex.EncodeToString(b[:cut]), Origin: "trunc:" + origin}
